@@ -1,6 +1,7 @@
 """C10 -- online channel statistics do not depend on how the stream is chunked or merged.
 
-Proof: Props/C10.v over Gen/Moments.v (update_moments, update_moments_basic, add_online_moments and the loop structure of
+Proof: Props/C10.v (with Proofs/C10_tree.v: min/max for every tree of additions with any start indices and zero-length pushes;
+std as the non-negative root of the variance) over Gen/Moments.v (update_moments, update_moments_basic, add_online_moments and the loop structure of
 compute_online_moments(_basic), regenerated from kernels.py by tools/py2coq/gen_c10.py) and Model/C10_moments.v.
 Correspondence: the model's `eval` (exact Q arithmetic, int64/int32 wraps) under vm_compute versus ChannelStats on the same
 histories (push_data sequences and additions), field by field; plus add_online_moments on hand-built records with large counts.
@@ -358,13 +359,14 @@ Import ListNotations.
 Open Scope Q_scope.
 Definition close (x y t : Q) : bool := Qle_bool (Qabs (x - y)) t.
 Definition opt (t : Q) (b : bool) : bool := if Qle_bool 0 t then b else true.
-Definition chk (c : bool * hist * (Z * Q * Q * Q * Q * Q * Q) * (Q * Q * Q * Q) * (Q * Q * Q) * (Q * Q * Q)) : bool :=
-  let '(full, h, (n, i1, i2, i3, i4, lo, hi), (t1, t2, t3, t4), (iv, ik, is2), (tv, tk, ts2)) := c in
+Definition chk (c : bool * hist * (Z * Q * Q * Q * Q * Q * Q) * (Q * Q * Q * Q) * (Q * Q * Q * Q) * (Q * Q * Q * Q)) : bool :=
+  let '(full, h, (n, i1, i2, i3, i4, lo, hi), (t1, t2, t3, t4), (iv, ik, is2, isd), (tv, tk, ts2, tsd2)) := c in
   let s := eval_red full h in
   (s_cnt s =? n)%Z && Qeq_bool (s_min s) lo && Qeq_bool (s_max s) hi && close (s_m1 s) i1 t1 && close (s_m2 s) i2 t2
   && (if full then close (s_m3 s) i3 t3 && close (s_m4 s) i4 t4 else true)
   && (if (n <=? 3)%Z then st_eqb (eval full h) s else true)   (* eval_red is eval with reduced fractions *)
   && close (var_q s n) iv tv
+  && Qle_bool 0 isd && close (isd * isd) (var_q s n) tsd2     (* ChannelStats.std against Model is_std: non-negative root of var_q *)
   && (if full then opt tk (close (kurt_q s n) ik tk) && opt ts2 (close (skew_sq_q s n) is2 ts2) else true).
 """
 CORR_TAIL = """Definition idx := map fst (filter (fun p => negb (chk (snd p))) (combine (seq 0 (length cases)) cases)).
@@ -418,7 +420,8 @@ def run(R: vlib.Run):
                   "tools/py2coq/gen_c10.py (Python ast -> Gallina over Q and Z) and its assumed numba semantics: float arithmetic exact (Q), "
                   "int op int = int64 with wrap, store into the int32 count field wraps, whole-array statements act per channel",
                   "Model/C10_moments.v: ChannelStats glue (zero record, push_data dispatch, __add__, var/skew/kurtosis with the m2 != 0 "
-                  "guards) written by hand; tied by structural checks of stats.py in the translator and by the correspondence run",
+                  "guards; std only as 'the non-negative root of var', sqrt itself is not modelled) written by hand; tied by structural "
+                  "checks of stats.py in the translator and by the correspondence run",
                   "float32/float64 rounding and fastmath are not modelled: bounded by the tolerance of props/c10.py (docstring)"]
     R.assume += ["ChannelStats(nchans, nsamps) is built with nsamps = number of samples it will be fed (divisor of var: C06)",
                  "streams have >= 1 sample; sample values |x| <= 65535 (16-bit range; float classes |x| <= 1e4) and non-constant channels "
@@ -451,14 +454,16 @@ def run(R: vlib.Run):
                 Rmax, D = float(np.abs(x).max()), float(x.max() - x.min())
                 t = tol_case(n, npush, nadds, Rmax, D)
                 mu, M2, M3, M4 = two_pass(x)
-                _, tv, rskew, ts, rkurt, tk = stat_box(n, M2, M3, M4, t[1], t[2], t[3])
-                iv, ik, isk = float(s.var[ch]), float(s.kurtosis[ch]), float(s.skew[ch])
-                if not all(map(math.isfinite, (iv, ik, isk))):
+                rvar, tv, rskew, ts, rkurt, tk = stat_box(n, M2, M3, M4, t[1], t[2], t[3])
+                iv, ik, isk, isd = float(s.var[ch]), float(s.kurtosis[ch]), float(s.skew[ch]), float(s.std[ch])
+                if not all(map(math.isfinite, (iv, ik, isk, isd))):
                     continue
                 ts2 = -1.0 if ts is None else (2 * abs(rskew) * ts + ts * ts) * 1.01 + 1e-30
-                corr.append((mode != "basic", h_coq(h, col), rec_of(s, ch), t, (iv, ik, isk * isk),
-                             (tv, -1.0 if tk is None else tk, ts2),
-                             {"mode": mode, "class": cls, "history": repr(h), "channel": ch, "stream": col.tolist()}))
+                rstd, tsd = std_box(rvar, tv)
+                tsd2 = (2 * rstd * tsd + tsd * tsd) * 1.01 + 1e-30         # |std^2 - var| when |std - sqrt(var)| <= tsd
+                corr.append((mode != "basic", h_coq(h, col), rec_of(s, ch), t, (iv, ik, isk * isk, isd),
+                             (tv, -1.0 if tk is None else tk, ts2, tsd2),
+                             {"mode": mode, "class": cls, "label": label, "history": repr(h), "channel": ch, "stream": col.tolist()}))
 
     # ---- (a) + (b): exhaustive over short streams -----------------------------------------------
     nmax = 6 if quick else 10
@@ -582,12 +587,17 @@ def run(R: vlib.Run):
     per = 300
     limit = 1200 if quick else 6000
     if len(corr) > limit:
-        keep = sorted(rng.sample(range(len(corr)), limit))
+        # the histories with zero-length pushes (count / min / max / sums against the model's HPush f []) keep a quarter of the budget
+        ep = [i for i, c in enumerate(corr) if c[6]["label"] == "emptypush"]
+        ot = [i for i, c in enumerate(corr) if c[6]["label"] != "emptypush"]
+        nep = min(len(ep), limit // 4)
+        keep = sorted(rng.sample(ep, nep) + rng.sample(ot, min(len(ot), limit - nep)))
         corr = [corr[i] for i in keep]
+    R.extra_cov["correspondence_emptypush_cases"] = sum(1 for c in corr if c[6]["label"] == "emptypush")
     total_bad = 0
     for si in range(0, len(corr), per):
         sh = corr[si:si + per]
-        lines = [CORR_HEAD, "Definition cases : list (bool * hist * (Z * Q * Q * Q * Q * Q * Q) * (Q * Q * Q * Q) * (Q * Q * Q) * (Q * Q * Q)) := ["]
+        lines = [CORR_HEAD, "Definition cases : list (bool * hist * (Z * Q * Q * Q * Q * Q * Q) * (Q * Q * Q * Q) * (Q * Q * Q * Q) * (Q * Q * Q * Q)) := ["]
         rows = []
         for full, hc, rec, t, der, dt, _ in sh:
             rows.append(f"({'true' if full else 'false'}, {hc}, (({rec[0]})%Z, " + ", ".join(qlit(v) for v in rec[1:]) + "), ("
